@@ -205,6 +205,19 @@ impl GenerationPass for AvailableValuePass {
                                 .collect();
                         }
                     }
+                    // A callee is free to use the stack below the caller's sp:
+                    // slots there do not survive a call
+                    if node.calls_to().is_some() {
+                        let sp = node.reg_values_in().stack_offset();
+                        map = map
+                            .into_iter()
+                            .filter(|(location, _)| match (location, sp) {
+                                (MemoryLocation::StackOffset(slot), Some(sp)) => *slot >= sp,
+                                (MemoryLocation::StackOffset(_), None) => false,
+                                _ => true,
+                            })
+                            .collect();
+                    }
                     if let Some((MemoryLocation::StackOffset(offset), value)) =
                         node.gen_memory_value()
                     {
